@@ -66,10 +66,23 @@ pub fn inputs(seed: u64, extra: usize) -> Vec<(String, Vec<u8>)> {
     v
 }
 
-pub fn run(seed: u64, extra: usize, rounds: usize, out: &str) {
+pub fn run(seed: u64, extra: usize, rounds: usize, history: usize, out: &str) {
     let ins = inputs(seed, extra);
     let mut lines: Vec<String> = vec![];
-    for (name, b) in &ins {
+    // launch `history` > 0 visits the inputs in reverse and precedes every signature call by a detection of the same
+    // bytes under OTHER settings (thresholds, window): "the same result in every process and on every repetition"
+    // must hold whatever the process did before
+    let order: Vec<usize> = if history % 2 == 1 { (0..ins.len()).rev().collect() } else { (0..ins.len()).collect() };
+    let mut slots: Vec<String> = vec![String::new(); ins.len()];
+    for &ix in &order {
+        let (name, b) = &ins[ix];
+        if history > 0 {
+            let mut s = default_settings();
+            s.threshold = ordered_float::OrderedFloat([0.05f32, 0.5, 0.1, 1.0][(history - 1) % 4]);
+            s.language_threshold = ordered_float::OrderedFloat([0.3f32, 0.0, 0.6, 0.1][(history - 1) % 4]);
+            if history % 3 == 0 { s.steps = 3; s.chunk_size = 64; }
+            let _ = run_real(b, &s);
+        }
         let mut first: Option<u64> = None;
         for r in 0..rounds.max(1) {
             if r > 0 {
@@ -86,7 +99,8 @@ pub fn run(seed: u64, extra: usize, rounds: usize, out: &str) {
                 _ => {}
             }
         }
-        lines.push(format!("{:016x} {}", first.unwrap_or(0), name));
+        slots[ix] = format!("{:016x} {}", first.unwrap_or(0), name);
     }
+    lines.extend(slots);
     std::fs::write(out, lines.join("\n") + "\n").expect("write");
 }
